@@ -1,7 +1,7 @@
 SPECIFICATION TraceSpec
 CONSTANTS
-  Names = {"alpha", "beta_total"}
-  Keys = {"k"}
+  Names = {"alpha", "alpha_k", "beta_total"}
+  Keys = {"k", "a", "z"}
   Vals = {"v1", "v2"}
   K = 4
   MaxOps = 1000000
